@@ -175,3 +175,7 @@ impl SyncBlocker {
         self.unparked.store(true, Ordering::Release);
     }
 }
+
+#[cfg(kani)]
+#[path = "/verif/harness/may/sync_blocking.rs"]
+mod verif_kani;
